@@ -144,6 +144,17 @@ Theorem opened_objects_confined :
     exists rel : list bytes, rel <> [] /\ Forall (fun s => proper_name s = true) rel /\ names = rev stP ++ rel.
 Proof. exact opened_objects_confined_lemma. Qed.
 
+(** 2g. The two descriptions of path resolution agree: a content read through [read_path] (the zipper walk the
+    content theorems 1b/1c/6 use) is the content of the regular file that [opened] (the walk by names that 2f
+    and the inotify observation use) says the path names. *)
+Theorem read_is_opened :
+  forall (tree : node) (f c : bytes),
+    starts_with [c_slash] f = true ->
+    read_path (tree, []) (tree, []) f = Some c ->
+    forall (names : list bytes) (isdir : bool),
+      opened tree f = Some (names, isdir) -> isdir = false /\ descend tree names = Some (File c).
+Proof. exact read_is_opened. Qed.
+
 (** 3a. An accepted path contains no "./", neither raw nor decoded; so it is different from every
     key that contains "./" — in particular from every internal route "/./…". *)
 Theorem internal_routes_unreachable : forall p : bytes,
